@@ -1,9 +1,15 @@
 use crate::run::Ctx;
 
+pub mod c05;
+pub mod c06;
+pub mod c07;
 pub mod c20;
 
 pub fn run(ctx: &mut Ctx) -> bool {
     match ctx.prop.as_str() {
+        "C05" => c05::run(ctx),
+        "C06" => c06::run(ctx),
+        "C07" => c07::run(ctx),
         "C20" => c20::run(ctx),
         _ => return false,
     }
